@@ -311,3 +311,4 @@ def nontrivial(case, res):
 
 def describe(case, res):
     return ["writer=%s" % case["writer"], "pathless=%s" % any(not f.get("path") for f in case["features"])]
+also = ["C14b"]   # the [Summary] that closes the terminal report
